@@ -457,6 +457,32 @@ def r13_channel_is_the_only_buffer(ctx):
     R.floor("C05.R13", n, 6, "fields of the client-side subscription types")
 
 
+
+def r14_classifiers_accept_any_payload(ctx):
+    """which kind of message an object is does not depend on what its payload looks like: every classification attempt of
+    the client decodes the payload position (result / error reason / params) as raw JSON - `Box<RawValue>`, `&RawValue`,
+    `Option<Box<RawValue>>`, `Value`. A concrete payload type (`SubscriptionError<String>`) makes the attempt fail for
+    other payloads - a close notification with a structured reason falls through to the next kind and is dropped, so the
+    subscription is never removed."""
+    from .common import client_message_handlers
+    F, R = ctx.F, ctx.R
+    n = 0
+    RAW = r"^(&|&mut )?serde_json::value::RawValue$|^std::boxed::Box<serde_json::value::RawValue>$|^std::borrow::Cow<'_?\w*, serde_json::value::RawValue>$|^serde_json::Value$|^std::option::Option<(std::boxed::Box<serde_json::value::RawValue>|&serde_json::value::RawValue|serde_json::Value)>$"
+    for hb in client_message_handlers(F):
+        for c in _classifier_calls(hb):
+            n += 1
+            ty = c.ga[-1]
+            # innermost generic argument (after lifetimes) of the nested wire types
+            inner = ty
+            while True:
+                m = re.match(r"^jsonrpsee_types::[\w:]+<(?:'_?\w*, )*(.*)>$", inner)
+                if not m:
+                    break
+                inner = m.group(1)
+            R.check(bool(re.search(RAW, inner)), "C05.R14", "classifier:%s:payload-is-raw" % short(_norm_ty(ty))[:60], "the %s attempt accepts any payload" % short(ty)[:50], "the client's classification attempt %s fixes the payload type to `%s`: messages of that kind with another payload shape are not recognised and fall through to the next kind (a server-side close with a structured reason is dropped as an unknown notification - the subscription stays registered and its stream never ends)" % (short(ty)[:80], inner), where(c))
+    R.floor("C05.R14", n, 8, "classification attempts of the client")
+
+
 def rkeys_manager_keys_not_derived(ctx):
     """ids are matched exactly"""
     from .common import manager_keys_not_derived
@@ -470,7 +496,7 @@ def rsel_shutdown_is_a_select_branch(ctx):
     shutdown_is_a_select_branch(ctx, "C05.SEL")
 
 
-RULES = [rsel_shutdown_is_a_select_branch, r1_classifier_agreement, r2_routing, r3_lag_and_close, r4_single_unsubscribe, r5_close_messages_are_not_lossy, r6_refused_insert_is_pure, r7_classifiers_are_plain, r8_client_builder_fields, r9_lagged_is_reported_as_lagged, r10_sub_ids_spelled_alike, r11_response_attempt_unconditional, r12_stream_ends_only_when_channel_ends, r13_channel_is_the_only_buffer, rarr_every_element, rcancel_receive_is_cancel_safe, rkeys_manager_keys_not_derived]
+RULES = [rsel_shutdown_is_a_select_branch, r1_classifier_agreement, r2_routing, r3_lag_and_close, r4_single_unsubscribe, r5_close_messages_are_not_lossy, r6_refused_insert_is_pure, r7_classifiers_are_plain, r8_client_builder_fields, r9_lagged_is_reported_as_lagged, r10_sub_ids_spelled_alike, r11_response_attempt_unconditional, r12_stream_ends_only_when_channel_ends, r13_channel_is_the_only_buffer, r14_classifiers_accept_any_payload, rarr_every_element, rcancel_receive_is_cancel_safe, rkeys_manager_keys_not_derived]
 
 LEVEL_TEXT = (
     "Structural necessary conditions of the client's notification demultiplexing decided from the type-checked program: "
